@@ -107,6 +107,9 @@ func c06Pass(env *lib.Env, rep *lib.Report, r *queryRunner, deep bool) {
 			{atoms: []qAtom{{qc(a, "k"), qc(b, "k"), "="}, {qc(a, "k"), ql(int64(2)), "="}}, ors: []bool{true}},
 			{atoms: []qAtom{{ql(int64(1)), ql(int64(1)), "="}}},
 			{atoms: []qAtom{{ql(int64(1)), ql(int64(2)), "="}}},
+			// ordering comparisons written with the literal on the left
+			{atoms: []qAtom{{ql(int64(1)), qc(b, "k"), "<"}}},
+			{atoms: []qAtom{{qc(a, "k"), qc(b, "k"), "="}, {ql(int64(2)), qc(a, "k"), ">"}}, ors: []bool{false}},
 			// an unqualified name that both sides have, in the right operand of AND / OR (must be rejected, whether or
 			// not the left operand already decides)
 			{atoms: []qAtom{{qc(a, "k"), qc(b, "k"), "="}, {qc("", "k"), ql(int64(1)), "="}}, ors: []bool{false}},
@@ -189,7 +192,7 @@ func c06Pass(env *lib.Env, rep *lib.Report, r *queryRunner, deep bool) {
 		}
 	}
 	rep.Bounds["FROM clauses with a repeated table id"] = fmt.Sprintf("%d (unaliased self-join, two tables under one alias, the same table twice under one alias, an alias equal to another table's name, t JOIN u JOIN t; ON 1 = 1 and ON k = 1): SELECT k and ON k = 1 must be rejected", nDup)
-	rep.Bounds["FROM clauses"] = fmt.Sprintf("%d join chains (1..2 joins; INNER JOIN / JOIN / LEFT JOIN / RIGHT JOIN; self-joins under aliases; 11 ON conditions incl. an ambiguous unqualified name behind AND / OR, AND/OR, mixed AND/OR of three atoms and constants)", len(froms))
+	rep.Bounds["FROM clauses"] = fmt.Sprintf("%d join chains (1..2 joins; INNER JOIN / JOIN / LEFT JOIN / RIGHT JOIN; self-joins under aliases; 13 ON conditions incl. ordering comparisons with the literal on the left, an ambiguous unqualified name behind AND / OR, AND/OR, mixed AND/OR of three atoms and constants)", len(froms))
 	cT, cU, cV := c06Contents("t"), c06Contents("u"), c06Contents("v")
 	rep.Bounds["table contents"] = fmt.Sprintf("%d x %d x %d: all multisets of <= 2 rows over keys {1,2} per table (empty sides, duplicate keys); for t and u also two contents whose second row has NULL in every non-key column", len(cT), len(cU), len(cV))
 	rep.Bounds["select lists per FROM"] = "*; all columns qualified by table id; unqualified unique column; unqualified ambiguous column k (must be rejected); column qualified by the table name although an alias exists (must be rejected)"
